@@ -1,5 +1,63 @@
 package indeptest
 
-// expectedInvalid lists corpus files (relative to /repo/testdata) that are NOT spec-conformant on
-// purpose (the reference library's own negative tests) or are not stand-alone HDF5 files, with the reason.
-var expectedInvalid = map[string]string{}
+import (
+	"path/filepath"
+	"strings"
+)
+
+// Files of the corpus that are NOT spec-conformant stand-alone HDF5 files on purpose: the reference
+// library's own negative tests (fuzzed/corrupted inputs it must reject), members of multi-file
+// storage (family/multi/split drivers: no superblock of their own, or addresses that span members),
+// and files written by the Go library under test (not by the reference library).
+var expectedInvalidByName = map[string]string{
+	"th5s.h5":                                     "negative test (th5s.c test_h5s_compat): dataset written by a hacked library with rank 33 > H5S_MAX_RANK; the reference library must fail to open it",
+	"bad_compound.h5":                             "negative test: fuzzed compound datatype with 0 members",
+	"bad_offset.h5":                               "negative test: symbol table entry with a link name offset outside the local heap",
+	"corrupt_stab_msg.h5":                         "negative test: symbol table message with corrupted B-tree/heap addresses",
+	"tbad_msg_count.h5":                           "negative test: object header with a deliberately wrong message count",
+	"3790_infinite_loop.h5":                       "negative test (issue 3790): corrupted object header size",
+	"err_attr_dspace.h5":                          "negative test: attribute whose shared dataspace reference is invalid",
+	"tmisc38a.h5":                                 "negative test (tmisc.c misc38): datatype size field corrupted (32-bit float with size 65525)",
+	"tCVE-2021-37501_attr_decode.h5":              "CVE reproducer (fuzzed)",
+	"tCVE_2018_11206_fill_new.h5":                 "CVE reproducer (fuzzed)",
+	"tCVE_2018_11206_fill_old.h5":                 "CVE reproducer (fuzzed)",
+	"h5repack_CVE-2018-14460.h5":                  "CVE reproducer (fuzzed)",
+	"h5repack_CVE-2018-17432.h5":                  "CVE reproducer (fuzzed)",
+	"memleak_H5O_dtype_decode_helper_H5Odtype.h5": "fuzzed input (memory-leak reproducer)",
+	"h5stat_err_old_fill.h5":                      "negative test for h5stat: corrupted old fill value message",
+	"h5stat_err_old_layout.h5":                    "negative test for h5stat: corrupted old layout message",
+	"h5stat_err_refcount.h5":                      "negative test for h5stat: corrupted reference count message",
+	"h5clear_fsm_persist_noclose.h5":              "file left open by a crashed writer (metadata never flushed); input for h5clear",
+	"h5clear_status_noclose.h5":                   "file left open by a crashed writer (metadata never flushed); input for h5clear",
+	"h5clear_mdc_image.h5":                        "file with a metadata cache image and unflushed metadata; input for h5clear",
+	"h5clear_fsm_persist_less.h5":                 "input for h5clear --increment: superblock EOF address deliberately smaller than the file",
+	"h5clear_fsm_persist_user_less.h5":            "input for h5clear --increment: superblock EOF address deliberately smaller than the file",
+	"h5clear_fsm_persist_greater.h5":              "input for h5clear: superblock EOF address deliberately greater than the file",
+	"h5clear_fsm_persist_user_greater.h5":         "input for h5clear: superblock EOF address deliberately greater than the file",
+	"h5clear_fsm_persist_equal.h5":                "input for h5clear",
+	"h5clear_fsm_persist_user_equal.h5":           "input for h5clear",
+	"test_attr_basic.h5":                          "written by the Go library's own tests (attribute_write_simple_test.go), not by the reference library",
+	"test_attr_int32.h5":                          "written by the Go library's own tests (attribute_write_test.go), not by the reference library",
+	"test_attributes.h5":                          "written by the Go library's own tests, not by the reference library",
+	"test_v1.12_simple.h5":                        "placeholder bytes, not an HDF5 file (superblock version byte 72)",
+	"family_v16-000000.h5":                        "first member of a family-driver file set: addresses continue in the other members",
+	"tfamily00000.h5":                             "first member of a family-driver file set: addresses continue in the other members",
+	"test_subfiling_precreate_rank_0.h5":          "subfiling stub file",
+	"test_subfiling_stripe_sizes.h5":              "subfiling stub file",
+}
+
+// expectedInvalid returns the reason a corpus file is not expected to decode, if any.
+func expectedInvalidReason(rel string) (string, bool) {
+	base := filepath.Base(rel)
+	if r, ok := expectedInvalidByName[base]; ok {
+		// the top-level names only apply to /repo/testdata/*.h5
+		return r, true
+	}
+	switch {
+	case strings.HasPrefix(base, "family_file0"), strings.HasPrefix(base, "family_v16-0000"), strings.HasPrefix(base, "tfamily000"):
+		return "non-first member of a family-driver file set (no superblock of its own)", true
+	case strings.HasPrefix(base, "tmulti-"), strings.HasSuffix(base, "-r.h5") && (strings.HasPrefix(base, "tsplit_file") || strings.HasPrefix(base, "multi_file_v16")):
+		return "member file of a multi/split-driver file set (no superblock of its own)", true
+	}
+	return "", false
+}
